@@ -656,7 +656,35 @@ func (e *emitter) symd(x ast.Expr, d int) string {
 		return e.symd(x.X, d+1) + ".(" + types.ExprString(x.Type) + ")"
 	case *ast.CompositeLit:
 		var el []string
-		for _, l := range x.Elts {
+		elts := x.Elts
+		// a keyed struct literal describes the same value whatever order its fields are written in: declaration order
+		if t := fi.Info.TypeOf(x); t != nil {
+			if st, ok := t.Underlying().(*types.Struct); ok {
+				idx := map[string]int{}
+				for i := 0; i < st.NumFields(); i++ {
+					idx[st.Field(i).Name()] = i
+				}
+				keyed := len(elts) > 0
+				for _, l := range elts {
+					kv, ok := l.(*ast.KeyValueExpr)
+					if !ok {
+						keyed = false
+						break
+					}
+					if id, ok := kv.Key.(*ast.Ident); !ok || idx[id.Name] == 0 && st.NumFields() > 0 && st.Field(0).Name() != id.Name {
+						keyed = false
+						break
+					}
+				}
+				if keyed {
+					elts = append([]ast.Expr{}, elts...)
+					sort.SliceStable(elts, func(i, j int) bool {
+						return idx[elts[i].(*ast.KeyValueExpr).Key.(*ast.Ident).Name] < idx[elts[j].(*ast.KeyValueExpr).Key.(*ast.Ident).Name]
+					})
+				}
+			}
+		}
+		for _, l := range elts {
 			el = append(el, e.symd(l, d+1))
 		}
 		return types.TypeString(fi.Info.TypeOf(x), func(p *types.Package) string { return p.Name() }) + "{" + strings.Join(el, ",") + "}"
